@@ -23,14 +23,14 @@ Theorem C05_validator_sound : forall b cut fuel ds qs rs ls k,
   exists st : state term,
   forall env : var -> Z,
     let s := map (hm (eval env)) st in
-    let vals := den_prog (zalg env) ds in
+    let U := b_univ b in
     step (zalg env) (freeze b cut) s = s /\
     (forall l, In l ls ->
        (wrap32 (env (l_var l)) = 0 \/ wrap32 (env (l_var l)) = 1) ->
        let s' := step (zalg env) b s in
        let bit := wrap32 (env (l_var l)) >? 0 in
-       let sa := den (zalg env) vals (l_set l) >? 0 in
-       let ra := den (zalg env) vals (l_reset l) >? 0 in
+       let sa := zden env U ds (l_set l) >? 0 in
+       let ra := zden env U ds (l_reset l) >? 0 in
        zget env (nth (l_ent l) s' []) (l_sig l)
        = b2z (if l_set_first l then sa || (bit && negb ra) else negb ra && (sa || bit))).
 Proof. exact check_latches_sound. Qed.
